@@ -103,7 +103,7 @@ def check(pid, tier, seed, only, workers, verbose, write_evidence=True):
     harness_errors = []
     inconclusive = []
     exhaustive_all = True
-    wall_limit = getattr(mod, 'WALL_LIMIT', {}).get(tier)
+    wall_limit = getattr(mod, 'WALL_LIMIT', {}).get(tier, 900 if tier == 'quick' else 10800)
 
     aggs = ex.explore_many('harness.' + pid, hs, seed=seed, workers=workers,
                            n_witness=2 if tier == 'quick' else 6, wall_limit=wall_limit)
@@ -146,6 +146,9 @@ def check(pid, tier, seed, only, workers, verbose, write_evidence=True):
         if not agg['exhaustive']:
             exhaustive_all = False
             inconclusive.append('%s/path-budget' % h.name)
+        if by_status.get('timeout'):
+            exhaustive_all = False
+            inconclusive.append('%s/path-timeout(%d)' % (h.name, by_status['timeout']))
         # sample records
         for rec in agg['records'][:2]:
             samples.append({'harness': h.name, 'decisions': rec['decisions'], 'status': rec['status'],
